@@ -394,6 +394,12 @@ impl LockFreeMemoryPool {
             return Ok(());
         }
 
+        // The block must lie inside the pool before anything is written to it
+        let offset = self.ptr_to_offset(ptr)? as usize;
+        if size > self.config.memory_size - offset {
+            return Err(ZiporaError::invalid_data("Block extends beyond pool memory"));
+        }
+
         // Step 1: Zero memory using SIMD (safe because we own the pointer)
         if self.config.zero_on_free && self.config.enable_simd_optimization {
             let slice = unsafe { std::slice::from_raw_parts_mut(ptr.as_ptr(), size) };
